@@ -77,7 +77,8 @@ func rulesC10(r *Run) {
 	ruleSkipRecoveredChecks(r, "R3")
 	ruleRecoveryNoEarlyWrite(r, "R3")
 	ruleRecoveryPersistsFixes(r, "R3")
-	r.Expect("R3", 31)
+	ruleRepairThenClassifyAll(r, "R3")
+	r.Expect("R3", 33)
 
 	r.Kind("R4", "K1+K3")
 	ruleRecoveryDeferred(r, "R4", m)
@@ -955,6 +956,11 @@ func rulesC12(r *Run) {
 		ruleYieldDiscipline(r, "R6", fn, nil)
 	}
 	r.Expect("R6", 2)
+
+	// R7: the contradiction rule over everything the five API calls can reach
+	r.Kind("R7", "K10")
+	ruleNilContradiction(r, "R7", "", "internal/execute", "internal/execute/sm", "internal/execute/sm/actions", "workflow", "workflow/utils/walk", "workflow/storage/sqlite", "plugins/registry", "plugins", "workflow/context")
+	r.Expect("R7", 10)
 }
 
 // ruleStartExclusion: a lock (or insert-if-absent) makes Read+validate+register atomic per plan.
